@@ -160,7 +160,7 @@ fn noparams() -> Params {
 
 // ---- 1. scoping ----------------------------------------------------------------------------------
 
-fn scoping_programs(ctx: &Ctx) -> Vec<Vec<S>> {
+fn scoping_space(ctx: &Ctx) -> (u64, impl Fn(u64) -> Option<Vec<S>> + Sync) {
     let stm: Vec<S> = vec![
         set("x", i(1)),
         set("x", b("+", v("x"), i(1))),
@@ -171,7 +171,7 @@ fn scoping_programs(ctx: &Ctx) -> Vec<Vec<S>> {
         S::Set { var: "z".into(), e: i(7), global: false, default: true },
         S::Probe(b("+", v("x"), v("y"))),
     ];
-    let frames = ["rule", "if", "each", "for", "while", "mixin", "mixin-far", "func", "content", "else"];
+    let frames: [&'static str; 10] = ["rule", "if", "each", "for", "while", "mixin", "mixin-far", "func", "content", "else"];
     let wrap = |f: &str, body: Vec<S>, k: &mut usize| -> Vec<S> {
         *k += 1;
         match f {
@@ -205,7 +205,6 @@ fn scoping_programs(ctx: &Ctx) -> Vec<Vec<S>> {
             _ => true,
         }
     };
-    let mut out: Vec<Vec<S>> = Vec::new();
     let seed = vec![set("x", i(0)), set("y", i(0)), S::MixinDef("c".into(), noparams(), vec![S::Content(vec![])])];
     // bodies: sequences of <= 2 (thorough 3) simple statements; one nested frame holding <= 2 statements
     // before / after a statement (thorough: also between two statements)
@@ -239,57 +238,59 @@ fn scoping_programs(ctx: &Ctx) -> Vec<Vec<S>> {
             }
         }
     }
-    for f in frames {
-        for body in &bodies {
-            if body.iter().any(|(k, _)| k.map(|k| !legal_in(f, k)).unwrap_or(false)) {
-                continue;
-            }
-            // build: seed; [far mixin definitions]; frame(body)
-            let mut k = 0usize;
-            let mut prelude: Vec<S> = seed.clone();
-            let mut inner: Vec<S> = Vec::new();
-            for (kind, stmts) in body {
-                match kind {
-                    None => inner.extend(stmts.clone()),
-                    Some("mixin-far") => {
-                        k += 1;
-                        prelude.push(S::MixinDef(format!("far{}", k + 1), noparams(), stmts.clone()));
-                        inner.push(S::Include(format!("far{}", k + 1), vec![], None));
-                    }
-                    Some(kf) => inner.extend(wrap(kf, stmts.clone(), &mut k)),
+    let n = (frames.len() * bodies.len() * 4) as u64;
+    let nb = bodies.len();
+    let build = move |idx: u64| -> Option<Vec<S>> {
+        let idx = idx as usize;
+        let variant = idx % 4;
+        let body = &bodies[(idx / 4) % nb];
+        let f = frames[idx / 4 / nb];
+        if body.iter().any(|(k, _)| k.map(|k| !legal_in(f, k)).unwrap_or(false)) {
+            return None;
+        }
+        // build: seed; [far mixin definitions]; frame(body)
+        let mut k = 0usize;
+        let mut prelude: Vec<S> = seed.clone();
+        let mut inner: Vec<S> = Vec::new();
+        for (kind, stmts) in body {
+            match kind {
+                None => inner.extend(stmts.clone()),
+                Some("mixin-far") => {
+                    k += 1;
+                    prelude.push(S::MixinDef(format!("far{}", k + 1), noparams(), stmts.clone()));
+                    inner.push(S::Include(format!("far{}", k + 1), vec![], None));
                 }
-            }
-            let framed: Vec<S> = if f == "mixin-far" {
-                k += 1;
-                prelude.push(S::MixinDef(format!("far{}", k + 1), noparams(), inner));
-                vec![S::Include(format!("far{}", k + 1), vec![], None)]
-            } else {
-                wrap(f, inner, &mut k)
-            };
-            for variant in 0..4 {
-                let mut prog = prelude.clone();
-                match variant {
-                    0 => prog.extend(framed.clone()),
-                    1 => {
-                        prog.push(set("x", i(5)));
-                        prog.extend(framed.clone());
-                    }
-                    2 => {
-                        prog.extend(framed.clone());
-                        prog.push(set("x", b("+", v("x"), i(10))));
-                    }
-                    _ => {
-                        // the frame inside a style rule
-                        prog.push(S::Rule("o".into(), framed.clone()));
-                    }
-                }
-                prog.push(S::Probe(v("x")));
-                prog.push(S::Probe(v("y")));
-                out.push(prog);
+                Some(kf) => inner.extend(wrap(kf, stmts.clone(), &mut k)),
             }
         }
-    }
-    out
+        let framed: Vec<S> = if f == "mixin-far" {
+            k += 1;
+            prelude.push(S::MixinDef(format!("far{}", k + 1), noparams(), inner));
+            vec![S::Include(format!("far{}", k + 1), vec![], None)]
+        } else {
+            wrap(f, inner, &mut k)
+        };
+        let mut prog = prelude;
+        match variant {
+            0 => prog.extend(framed),
+            1 => {
+                prog.push(set("x", i(5)));
+                prog.extend(framed);
+            }
+            2 => {
+                prog.extend(framed);
+                prog.push(set("x", b("+", v("x"), i(10))));
+            }
+            _ => {
+                // the frame inside a style rule
+                prog.push(S::Rule("o".into(), framed));
+            }
+        }
+        prog.push(S::Probe(v("x")));
+        prog.push(S::Probe(v("y")));
+        Some(prog)
+    };
+    (n, build)
 }
 
 // ---- 1b. closures --------------------------------------------------------------------------------
@@ -631,14 +632,31 @@ fn operator_programs(ctx: &Ctx) -> Vec<(Vec<S>, E)> {
 }
 
 fn run_space(ctx: &Ctx, sub: &'static str, progs: &[Vec<S>], bound: &str) {
-    let fresh = sub == "callables";
+    run_space_fn(ctx, sub, progs.len() as u64, &|i| progs.get(i as usize).cloned(), bound)
+}
+
+/// `build(i)` constructs case i on the worker (None = the combination is not a legal program)
+fn run_space_fn(ctx: &Ctx, sub: &'static str, n: u64, build: &(dyn Fn(u64) -> Option<Vec<S>> + Sync), bound: &str) {
     par(
         ctx,
         sub,
-        progs.len() as u64,
-        |i| json!({"program": print_program(&progs[i as usize]).0}),
+        n,
+        |i| match build(i) {
+            Some(p) => json!({"program": print_program(&p).0}),
+            None => json!(null),
+        },
         |i, l| {
-            let (diff, produced_values, src) = compare_on(&progs[i as usize], fresh);
+            let prog = match build(i) {
+                Some(p) => p,
+                None => {
+                    l.count("not_a_legal_program", 1);
+                    return;
+                }
+            };
+            // every case runs on the worker thread: since named arguments and scopes are insertion-ordered
+            // (fix 72c4779, 43b1fde) no output of these programs depends on thread-local state, and C02 is the
+            // check that owns history independence
+            let (diff, produced_values, src) = compare_on(&prog, false);
             l.evals += 1;
             l.validated += 1;
             l.outcome(digest_str(&src));
@@ -654,14 +672,14 @@ fn run_space(ctx: &Ctx, sub: &'static str, progs: &[Vec<S>], bound: &str) {
         },
     );
     ctx.bound(sub, bound, true);
-    if let Some(p) = progs.get(progs.len() / 2) {
-        ctx.sample(sub, json!({"program": print_program(p).0}));
+    if let Some(p) = build(n / 2).or_else(|| build(0)) {
+        ctx.sample(sub, json!({"program": print_program(&p).0}));
     }
 }
 
 pub fn run(ctx: &Ctx) {
-    let sp = scoping_programs(ctx);
-    run_space(ctx, "scoping", &sp, "10 frame kinds (rule, @if at root, @else, @each, @for, @while, mixin defined here / at root, function, content block) x bodies of <= 2 (thorough 3) statements from an 8-statement alphabet with one nested frame holding <= 2 statements before / after (thorough: between) x 4 placements; probes of $x and $y after every program");
+    let (sn, sbuild) = scoping_space(ctx);
+    run_space_fn(ctx, "scoping", sn, &sbuild, "10 frame kinds (rule, @if at root, @else, @each, @for, @while, mixin defined here / at root, function, content block) x bodies of <= 2 (thorough 3) statements from an 8-statement alphabet with one nested frame holding <= 2 statements before / after (thorough: between) x 4 placements; probes of $x and $y after every program");
     let clp = closure_programs(ctx);
     run_space(ctx, "closures", &clp, "every sequence of <= 5 (thorough 6) steps over {define a function / a mixin reading $x, assign $x, assign $x !global, call, include, probe} with calls after their definitions, at the root, in a style rule, in a nested style rule with a shadowing local, (definition-free sequences) in a mixin body and in @if");
     let cp = control_programs();
